@@ -68,30 +68,56 @@ theorem calcNextTick_plain (S : Shape) (c : Cfg) (h : Res Int) (n : Int) :
     calcNextTick (plain S) c h n = calcNextTick S c h n := by
   simp [calcNextTick, plain]
 
+/-- a tick whose `fetchAndReschedule` returns an error sets the deadline to `RetryInterval` after the clock reading -/
+theorem iter_retErr (S : Shape) (hS : WF S) (c : Cfg) (trig : Trig) (st : BState) (i : In)
+    (hni : i.interrupted = false) (hret : (fetch S c trig i).retErr = true) :
+    (iter S c trig st i).st.retryAt = some (i.nowErr + c.R) := by
+  rw [(iter_fields S c trig st i).2.2.2.2]
+  simp [hni, afterTick, hS.2.2.2.2.2.2.2.1, hS.2.1, hret]
+
+theorem fetch_popEmpty_nothing (S : Shape) (c : Cfg) (trig : Trig) (i : In) (h : i.pop = .empty) :
+    (fetch S c trig i).dispatched = none ∧ (fetch S c trig i).popped = none ∧ (fetch S c trig i).pushed = none ∧
+    (fetch S c trig i).tickErr = false := by
+  unfold fetch; rw [h]; cases S.popEmpty <;> simp
+
+/-- a failing `Pop()` / `Push()` makes `fetchAndReschedule` return an error -/
+theorem fetch_tickErr (S : Shape) (hS : WF S) (c : Cfg) (trig : Trig) (i : In)
+    (h : (fetch S c trig i).tickErr = true) : (fetch S c trig i).retErr = true := by
+  obtain ⟨_, _, _, _, _, _, _, _, h9, _, h11⟩ := hS
+  unfold fetch at h ⊢
+  split at h
+  · simp [h9]
+  · rename_i hp
+    have := (fetch_popEmpty_nothing S c trig i hp).2.2.2
+    unfold fetch at this
+    simp only [hp] at this
+    simp [this] at h
+  · simp only at h ⊢
+    split at h
+    · simp at h
+    · split at h
+      · simp at h
+      · rename_i hp
+        simp [hp, h11]
+
+/-- … and so does a `Pop()` that answers `ErrQueueEmpty` while the queue still claims to hold jobs (or cannot say) -/
+theorem fetch_popEmpty (S : Shape) (hS : WF S) (c : Cfg) (trig : Trig) (i : In) (h : i.pop = .empty)
+    (hsz : i.size2 ≠ some 0) : (fetch S c trig i).retErr = true := by
+  simp [fetch, h, hS.2.2.2.2.2.2.2.2.2.1, hsz]
+
+/-- an honestly empty queue (`Pop()` empty, `Size()` = 0) is not a failure -/
+theorem fetch_popEmpty_honest (S : Shape) (hS : WF S) (c : Cfg) (trig : Trig) (i : In) (h : i.pop = .empty)
+    (hsz : i.size2 = some 0) : (fetch S c trig i).retErr = false := by
+  simp [fetch, h, hS.2.2.2.2.2.2.2.2.2.1, hsz]
+
 /-- a failing `Pop()` / `Push()` on a tick sets the deadline to `RetryInterval` after the clock reading -/
 theorem iter_tickErr (S : Shape) (hS : WF S) (c : Cfg) (trig : Trig) (st : BState) (i : In)
     (h : (iter S c trig st i).tickErr = true) :
     i.interrupted = false ∧ (iter S c trig st i).st.retryAt = some (i.nowErr + c.R) := by
-  obtain ⟨_, h2, _, _, _, _, _, h8, h9, _, h11⟩ := hS
-  obtain ⟨_, _, _, e4, e5⟩ := iter_fields S c trig st i
-  rw [e4] at h
+  rw [(iter_fields S c trig st i).2.2.2.1] at h
   cases hint : i.interrupted
-  · simp only [hint, Bool.false_eq_true, ↓reduceIte] at h e5
-    refine ⟨rfl, ?_⟩
-    rw [e5]
-    have hret : (fetch S c trig i).retErr = true := by
-      unfold fetch at h ⊢
-      split at h
-      · simp [h9]
-      · simp at h
-      · simp only at h ⊢
-        split at h
-        · simp at h
-        · split at h
-          · simp at h
-          · rename_i hp
-            simp [hp, h11]
-    simp [afterTick, h8, h2, hret]
+  · simp only [hint, Bool.false_eq_true, ↓reduceIte] at h
+    exact ⟨rfl, iter_retErr S hS c trig st i hint (fetch_tickErr S hS c trig i h)⟩
   · simp [hint] at h
 
 /-- the deadline never moves backwards past a bound that lies at most `R` after the current time -/
@@ -135,6 +161,51 @@ theorem no_tick_before (S : Shape) (hS : WF S) (c : Cfg) (trig : Trig) (X : Int)
       simp only [List.getElem?_cons_succ] at hj
       obtain ⟨r', hr', hXr'⟩ := iter_retryAt_ge S hS c trig st i X r hr hX (by omega)
       exact ih _ i.nowErr r' hr' hXr' (by omega) wrest j hj
+
+/-- In a well-timed run: after a tick (iteration `k`) whose `fetchAndReschedule` returned an error, read off the clock
+    at `ik.nowErr`, no later iteration ticks before `ik.nowErr + RetryInterval`. -/
+theorem backoff_after (S : Shape) (hS : WF S) (c : Cfg) (trig : Trig) (st0 : BState) (prev : Int) (ins : List In)
+    (hwt : WellTimed S c trig st0 prev ins) (k : Nat) (ik : In) (hik : ins[k]? = some ik)
+    (hni : ik.interrupted = false) (hret : (fetch S c trig ik).retErr = true)
+    (j : Nat) (ij : In) (hkj : k < j) (hij : ins[j]? = some ij) (hnj : ij.interrupted = false) :
+    ik.nowErr + c.R ≤ ij.tickAt := by
+  induction ins generalizing st0 prev k j with
+  | nil => simp at hik
+  | cons i is ih =>
+    obtain ⟨w1, w2, w3, w4, w5, w6, w7, wrest⟩ := hwt
+    cases j with
+    | zero => omega
+    | succ j =>
+      simp only [List.getElem?_cons_succ] at hij
+      cases k with
+      | zero =>
+        have hik' : i = ik := by simpa using hik
+        subst hik'
+        have hst := iter_retErr S hS c trig st0 i hni hret
+        exact no_tick_before S hS c trig (i.nowErr + c.R) is _ i.nowErr _ hst (Int.le_refl _) (Int.le_refl _)
+          wrest j ij hij hnj
+      | succ k =>
+        simp only [List.getElem?_cons_succ] at hik
+        exact ih _ _ wrest k hik j (by omega) hij
+
+/-- the tick part of the `k`-th output of a run depends on the `k`-th input only -/
+theorem runLoop_tick_fields (S : Shape) (c : Cfg) (trig : Trig) (st0 : BState) (ins : List In) (k : Nat) (ik : In)
+    (ok : Out) (hik : ins[k]? = some ik) (hok : (runLoop S c trig st0 ins).1[k]? = some ok) :
+    ok.tickErr = (if ik.interrupted then false else (fetch S c trig ik).tickErr) ∧
+    ok.dispatched = (if ik.interrupted then none else (fetch S c trig ik).dispatched) := by
+  induction ins generalizing st0 k with
+  | nil => simp at hik
+  | cons i is ih =>
+    cases k with
+    | zero =>
+      have hik' : i = ik := by simpa using hik
+      have hok' : iter S c trig st0 i = ok := by simpa [runLoop] using hok
+      subst hik'; subst hok'
+      exact ⟨(iter_fields S c trig st0 i).2.2.2.1, (iter_fields S c trig st0 i).1⟩
+    | succ k =>
+      simp only [List.getElem?_cons_succ] at hik
+      simp only [runLoop, List.getElem?_cons_succ] at hok
+      exact ih _ k hik hok
 
 /-! ### the stored entries -/
 
@@ -246,7 +317,9 @@ theorem iterQ_J (S : Shape) (c : Cfg) (hthr : 0 ≤ c.thr) (trig : Trig)
     | false =>
       simp only [Bool.false_eq_true, ↓reduceIte]
       cases hq : s.q with
-      | nil => simp [logOf, qAfter, hl]; rw [hq] at hJ; exact hJ
+      | nil =>
+        rw [hq] at hJ
+        cases S.popEmpty <;> simp [logOf, qAfter, hl] <;> exact hJ
       | cons e rest =>
         rw [hq] at hJ
         simp only
@@ -290,15 +363,13 @@ theorem fetch_plain (S : Shape) (c : Cfg) (trig : Trig) (i : In) :
 
 theorem fetch_faultFree (S : Shape) (hS : WF S) (c : Cfg) (trig : Trig) (q : Queue) (p : Plan)
     (hp : p.faultFree = true) : (fetch S c trig (inOf q p)).retErr = false := by
-  obtain ⟨-, -, -, -, -, -, -, -, -, h10, -⟩ := hS
   simp only [Plan.faultFree, Bool.and_eq_true, Bool.not_eq_eq_eq_not, Bool.not_true] at hp
-  obtain ⟨⟨⟨_, _⟩, hpop⟩, hpush⟩ := hp
-  unfold fetch inOf
-  simp only [hpop, hpush, Bool.false_eq_true, ↓reduceIte]
+  obtain ⟨⟨⟨⟨_, _⟩, hpop⟩, hpush⟩, hs2⟩ := hp
   cases q with
-  | nil => simp [h10]
+  | nil => exact fetch_popEmpty_honest S hS c trig _ (by simp [inOf, hpop]) (by simp [inOf, hs2])
   | cons e rest =>
-    simp only
+    unfold fetch inOf
+    simp only [hpop, hpush, Bool.false_eq_true, ↓reduceIte]
     cases (validate c trig e p.nowVal).2 <;> simp
 
 theorem afterTick_noErr (S : Shape) (c : Cfg) (st : BState) (t : Int) (hS : WF S) :
@@ -310,7 +381,7 @@ theorem afterTick_plain (S : Shape) (c : Cfg) (st : BState) (b : Bool) (t : Int)
   unfold afterTick plain
   by_cases h : S.stateFromTick = true <;> simp [h]
 
-/-- a fault-free iteration leaves the back-off state alone -/
+/-- a fault-free iteration leaves the back-off state alone (also a tick on an honestly empty queue) -/
 theorem iter_faultFree_st (S : Shape) (hS : WF S) (c : Cfg) (trig : Trig) (st : BState) (q : Queue) (p : Plan)
     (hp : p.faultFree = true) : (iter S c trig st (inOf q p)).st = st := by
   rw [(iter_fields S c trig st (inOf q p)).2.2.2.2, fetch_faultFree S hS c trig q p hp, afterTick_noErr S c st _ hS]
@@ -340,11 +411,11 @@ theorem iter_eq_plain (S : Shape) (hS : WF S) (c : Cfg) (trig : Trig) (st : BSta
     cases (inOf q p).size with
     | none => simp [plain, h1]
     | some n => simp [plain, inBackoff, h4, h5]; split <;> simp
-  have hf := fetch_faultFree S hS c trig q p hp
   unfold iter at hst ⊢
   simp only [hch, calcNextTick_plain, fetch_plain] at hst ⊢
   cases hint : (inOf q p).interrupted
-  · simp only [hint, Bool.false_eq_true, ↓reduceIte] at hst ⊢
+  · have hf := fetch_faultFree S hS c trig q p hp
+    simp only [hint, Bool.false_eq_true, ↓reduceIte] at hst ⊢
     simp only [hf, afterTick_noErr S c st _ hS]
     congr 1
     split <;> first | rfl | (rename_i h; exact absurd h hne)
@@ -376,19 +447,16 @@ theorem iterQ_vs_plain (S : Shape) (hS : WF S) (c : Cfg) (trig : Trig) (st : BSt
 /-! ### a queue that reports a size but has no head -/
 
 /-- `Size()` says non-empty, `Head()` and `Pop()` answer `ErrQueueEmpty` -/
-def SpuriousEmpty (i : In) : Prop := (∃ n, i.size = some (n + 1)) ∧ i.head = .empty ∧ i.pop = .empty
+def SpuriousEmpty (i : In) : Prop :=
+  (∃ n, i.size = some (n + 1)) ∧ i.head = .empty ∧ i.pop = .empty ∧ i.size2 ≠ some 0
 
 theorem iter_spurious (S : Shape) (hS : WF S) (c : Cfg) (trig : Trig) (st : BState) (i : In)
     (hsp : SpuriousEmpty i) (hnb : inBackoff S st i.now1 = false) :
-    (iter S c trig st i).armed = c.R ∧ (iter S c trig st i).dispatched = none ∧ (iter S c trig st i).st = st := by
-  obtain ⟨⟨n, hn⟩, hh, hp⟩ := hsp
-  obtain ⟨e1, _, _, _, e5⟩ := iter_fields S c trig st i
-  have hf : (fetch S c trig i).dispatched = none ∧ (fetch S c trig i).retErr = false := by
-    simp [fetch, hp, hS.2.2.2.2.2.2.2.2.2.1]
-  refine ⟨?_, ?_, ?_⟩
+    (iter S c trig st i).armed = c.R ∧ (iter S c trig st i).dispatched = none := by
+  obtain ⟨⟨n, hn⟩, hh, hp, _⟩ := hsp
+  refine ⟨?_, ?_⟩
   · rw [iter_armed]
     simp [chooseArm, hn, hnb, hS.2.2.2.2.1, calcNextTick, hh, hS.2.2.2.2.2.2.1]
-  · rw [e1, hf.1]; simp
-  · rw [e5, hf.2, afterTick_noErr S c st _ hS]; simp
+  · rw [(iter_fields S c trig st i).1, (fetch_popEmpty_nothing S c trig i hp).1]; simp
 
 end Faults
